@@ -142,6 +142,7 @@ def _compute_integral_ir(
     argument_shape: tuple[int, ...],
     visualise: bool,
     p: dict,
+    hoist_point_constants: bool = True,
 ) -> tuple[
     dict[str, npt.NDArray[np.float64]],
     dict[str, _table_types],
@@ -187,6 +188,17 @@ def _compute_integral_ir(
         rtol=p["table_rtol"],
         atol=p["table_atol"],
     )
+    if not hoist_point_constants:
+        # With a single quadrature point every table is constant over the
+        # points of its rule. Where the integral has other rules as well, such
+        # values depend on the rule and must stay inside its loop instead of
+        # being shared through the piecewise scope
+        in_loop: dict[str, _table_types] = {"piecewise": "varying", "fixed": "uniform"}
+        mt_table_reference = {
+            mt: tr._replace(ttype=in_loop.get(tr.ttype, tr.ttype))
+            for mt, tr in mt_table_reference.items()
+        }
+
     # Fetch unique tables for this quadrature rule
     table_types: dict[str, _table_types] = {v.name: v.ttype for v in mt_table_reference.values()}
     tables: dict[str, npt.NDArray[np.float64]] = {
@@ -437,6 +449,9 @@ def compute_integral_ir(
                 argument_shape,
                 visualise,
                 p,
+                hoist_point_constants=not (
+                    len(integrands_on_domain) > 1 and quadrature_rule.points.shape[0] == 1
+                ),
             )
 
             # Add tables and types for this quadrature rule to global tables dict
